@@ -282,6 +282,9 @@ def _check_bisect(case, ctx):
         ctx.cls("inverted:degenerate-after-rounding")
 
     # ---- run ---------------------------------------------------------------------------
+    snap = None
+    if isinstance(lower, torch.Tensor):
+        snap = (lower.clone(), upper.clone(), target.clone() if isinstance(target, torch.Tensor) else None)
     outcome, out = None, None
     try:
         with ctx.sut("C19/bisect"):
@@ -298,6 +301,29 @@ def _check_bisect(case, ctx):
                  max_iter=max_iter, precision=precision)
         return
     ctx.cls("outcome:" + outcome)
+    if snap is not None:
+        # "for any ... brackets": the caller's bracket tensors are the caller's - a second search with the same bracket objects
+        # (other targets) must behave exactly like one with fresh copies of the values they held
+        def again(lo_, up_):
+            t2 = raw(((snap[0] + snap[1]) / 2) + torch.zeros(shape, dtype=snap[0].dtype))  # root = middle of the original bracket
+            try:
+                return "value", bisect(raw, t2, lo_, up_, **kw)
+            except RuntimeError as exc:
+                if "max_iter" not in str(exc):
+                    raise
+                return "maxiter", None
+            except ValueError:
+                return "valueerror", None
+        with ctx.sut("C19/bisect"):
+            o_reused, r_reused = again(lower, upper)
+            o_fresh, r_fresh = again(snap[0].clone(), snap[1].clone())
+        same = o_reused == o_fresh and (r_reused is None or (r_reused.shape == r_fresh.shape and bool(((r_reused == r_fresh) | (r_reused.isnan() & r_fresh.isnan())).all())))
+        ctx.check(same, "C19/bisect/bracket-reuse",
+                  f"a second search with the same bracket tensors gives {o_reused} {None if r_reused is None else r_reused.flatten()[:3].tolist()} but "
+                  f"{o_fresh} {None if r_fresh is None else r_fresh.flatten()[:3].tolist()} with fresh copies of the bracket: the first call changed the caller's bracket")
+        if snap[2] is not None:
+            ctx.check(torch.equal(target, snap[2]) or bool((target.isnan() & snap[2].isnan()).all()), "C19/bisect/bracket-reuse", "bisect modified the target tensor")
+        ctx.cls("bracket-reuse:checked")
     ctx.check(calls["n"] <= budget, "C19/bisect/termination",
               f"{calls['n']} evaluations of fn > max_iter+{budget - max_iter} = {budget}", calls=calls["n"], max_iter=max_iter)
     near_end = any(min(float(roots[e]) - Le[e], Ue[e] - float(roots[e])) <= 0.01 * (Ue[e] - Le[e]) for e in range(n))
